@@ -933,3 +933,150 @@ Proof.
   - (* 7 *) match goal with |- context [fmt_args ?s ?vs] => let v := eval vm_compute in (fmt_args s vs) in change (fmt_args s vs) with v end.
     go. eexists. eexists. split; reflexivity.
 Qed.
+
+(* ---- the model's step keeps the index <-> suffix correspondence *)
+Lemma zskipn_skipn (bs : list byte) i k :
+  0 <= i <= Z.of_nat (length bs) -> 0 <= k -> zskipn k (skipn (Z.to_nat i) bs) = zskipn (i + k) bs.
+Proof.
+  intros Hi Hk. unfold zskipn. rewrite skipn_length.
+  destruct (Z.leb_spec k 0) as [H0|H0].
+  - replace k with 0 by lia. replace (i + 0) with i by lia.
+    destruct (Z.leb_spec i 0); [replace i with 0 by lia; reflexivity|].
+    destruct (Z.leb_spec (Z.of_nat (length bs)) i); [|reflexivity]. apply skipn_all2. lia.
+  - destruct (Z.leb_spec (i + k) 0); [lia|].
+    destruct (Z.leb_spec (Z.of_nat (length bs - Z.to_nat i)) k); destruct (Z.leb_spec (Z.of_nat (length bs)) (i + k)); try lia; [reflexivity|].
+    rewrite skipn_skipn'. f_equal. lia.
+Qed.
+Lemma zskipn_at (bs : list byte) i : 0 <= i <= Z.of_nat (length bs) -> zskipn i bs = skipn (Z.to_nat i) bs.
+Proof. apply UnmarshalProgProofs.zskipn_nat. Qed.
+
+Lemma skip_step_inv bs rest idx depth r i d :
+  Z.of_nat (length bs) + 8 < Z.of_N two63 ->
+  0 <= idx < Z.of_nat (length bs) -> rest = skipn (Z.to_nat idx) bs -> Z.of_N depth <= idx ->
+  skip_step rest idx depth = SNext r i d -> 0 <= i ->
+  r = zskipn i bs /\ Z.of_N d <= i /\ i < Z.of_N two63.
+Proof.
+  intros Hlen8 Hidx Hrest Hdep. change (Z.of_N two63) with 9223372036854775808 in *.
+  unfold skip_step, dec_varint.
+  destruct (dec_varint_aux 10 0 0 0 rest) as [[[raw n] rest1]|] eqn:Ed; [|discriminate].
+  apply dec_varint_aux_consumes in Ed. destruct Ed as (pre & Hpre & Hn & Hpl).
+  destruct (suffix_split bs rest pre rest1 idx ltac:(lia) Hrest Hpre ltac:(lia)) as (Hi1 & Hrest1 & Hi1r).
+  set (idx1 := Z.of_nat (length bs) - Z.of_nat (length rest1)) in *.
+  replace (idx + Z.of_nat n) with idx1 by lia. cbv zeta.
+  destruct (N.land (u64 raw) 7 =? 0)%N.
+  { unfold skip_varint. destruct (skip_varint_aux 10 0 rest1) as [[n2 rest2]|] eqn:Es; [|discriminate].
+    apply skip_varint_aux_consumes in Es. destruct Es as (pre2 & Hpre2 & Hn2 & Hpl2).
+    destruct (suffix_split bs rest1 pre2 rest2 idx1 ltac:(lia) Hrest1 Hpre2 ltac:(lia)) as (Hi2 & Hrest2 & Hi2r).
+    intro E. injection E as <- <- <-. intros _.
+    replace (idx1 + Z.of_nat n2) with (Z.of_nat (length bs) - Z.of_nat (length rest2)) by lia.
+    rewrite zskipn_at by lia. split; [exact Hrest2|]. lia. }
+  destruct (N.land (u64 raw) 7 =? 1)%N.
+  { intro E. injection E as <- <- <-. intros _. rewrite Hrest1 at 1. rewrite zskipn_skipn by lia. split; [reflexivity|]. lia. }
+  destruct (N.land (u64 raw) 7 =? 2)%N.
+  { destruct (dec_varint_aux 10 0 0 0 rest1) as [[[raw2 n2] rest2]|] eqn:Ed2; [|discriminate].
+    apply dec_varint_aux_consumes in Ed2. destruct Ed2 as (pre2 & Hpre2 & Hn2 & Hpl2).
+    destruct (suffix_split bs rest1 pre2 rest2 idx1 ltac:(lia) Hrest1 Hpre2 ltac:(lia)) as (Hi2 & Hrest2 & Hi2r).
+    destruct (Z.ltb_spec (s64 raw2) 0) as [|Hl0]; [discriminate|].
+    intro E. injection E as <- <- <-. intro Hi.
+    pose proof (s64_lt raw2) as Hs. change (Z.of_N two63) with 9223372036854775808 in Hs.
+    set (idx2 := Z.of_nat (length bs) - Z.of_nat (length rest2)) in *.
+    replace (idx1 + Z.of_nat n2 + s64 raw2) with (idx2 + s64 raw2) in * by lia.
+    destruct (Z_lt_le_dec (idx2 + s64 raw2) 9223372036854775808) as [Hsm|Hbig].
+    - rewrite wrap64_id' in * by lia. rewrite Hrest2 at 1. rewrite zskipn_skipn by lia. split; [reflexivity|]. lia.
+    - exfalso. pose proof (wrap64_big_neg (idx2 + s64 raw2)) as Hw.
+      change (Z.of_N two63) with 9223372036854775808 in Hw. change (Z.of_N two64) with 18446744073709551616 in Hw. lia. }
+  destruct (N.land (u64 raw) 7 =? 3)%N.
+  { intro E. injection E as <- <- <-. intros _. rewrite zskipn_at by lia. split; [exact Hrest1|]. lia. }
+  destruct (N.land (u64 raw) 7 =? 4)%N.
+  { destruct (depth =? 0)%N; [discriminate|].
+    intro E. injection E as <- <- <-. intros _. rewrite zskipn_at by lia. split; [exact Hrest1|]. lia. }
+  destruct (N.land (u64 raw) 7 =? 5)%N; [|discriminate].
+  intro E. injection E as <- <- <-. intros _. rewrite Hrest1 at 1. rewrite zskipn_skipn by lia. split; [reflexivity|]. lia.
+Qed.
+
+(* ---- the outer loop *)
+Definition sk_out (bs : list byte) (o : outcome Z) (r : stres) : Prop :=
+  match o with
+  | Ok m => is_ok_ret bs m r
+  | Err => is_err_ret bs r \/ exists i d, r = SrNext (sk_env bs i d)
+  | _ => False
+  end.
+
+Lemma sk_cond_eval call bs idx d :
+  go_eval G call (sk_env bs idx d) sk_cond = ErOk (GvBool (idx <? Z.of_nat (length bs))).
+Proof. reflexivity. Qed.
+
+Lemma sk_outer call lf bs : Z.of_nat (length bs) + 8 < Z.of_N two63 -> (11 <= lf)%nat ->
+  forall n rest idx depth F,
+  (length rest <= n)%nat -> (n < F)%nat -> 0 <= idx < Z.of_N two63 -> rest = zskipn idx bs -> Z.of_N depth <= idx ->
+  sk_out bs (skip_loop (S n) rest idx depth) (for_loop G call lf (Some sk_cond) [] sk_body F (sk_env bs idx (Z.of_N depth))).
+Proof.
+  intros Hlen8 Hlf. induction n as [|n IH]; intros rest idx depth F Hn HF Hidx Hrest Hdep;
+    (destruct F as [|F]; [lia|]); rewrite for_loop_S, sk_cond_eval; cbn [go_lift];
+    change (Z.of_N two63) with 9223372036854775808 in *.
+  - destruct rest; [|cbn in Hn; lia]. cbn [skip_loop sk_out].
+    destruct (Z.ltb_spec idx (Z.of_nat (length bs))) as [Hlt|Hge].
+    + exfalso. rewrite zskipn_at in Hrest by lia.
+      assert (length (skipn (Z.to_nat idx) bs) = 0%nat) by (rewrite <- Hrest; reflexivity). rewrite skipn_length in H. lia.
+    + right. eexists. eexists. reflexivity.
+  - destruct (Z.ltb_spec idx (Z.of_nat (length bs))) as [Hlt|Hge].
+    + rewrite zskipn_at in Hrest by lia.
+      pose proof (sk_body_step call lf bs Hlen8 Hlf idx depth rest ltac:(lia) Hrest Hdep) as HB.
+      assert (Hne : rest <> []).
+      { intro E. assert (length (skipn (Z.to_nat idx) bs) = 0%nat) by (rewrite <- Hrest, E; reflexivity). rewrite skipn_length in H. lia. }
+      cbn [skip_loop]. destruct rest as [|b0 rest0] eqn:Er; [congruence|]. rewrite <- Er in *.
+      destruct (skip_step rest idx depth) as [|r i d] eqn:Es; unfold sk_rel in HB.
+      * destruct HB as (e & en & -> & Hfp). left. exists e, en. split; [reflexivity|exact Hfp].
+      * pose proof (skip_step_next _ _ _ _ _ _ Es) as [Hshort _].
+        pose proof (skip_step_inv bs rest idx depth r i d Hlen8 ltac:(lia) Hrest Hdep Es) as Hinv.
+        unfold sk_post_rel in HB. destruct (Z.ltb_spec i 0) as [Hi|Hi].
+        { destruct HB as (e & en & -> & Hfp). left. exists e, en. split; [reflexivity|exact Hfp]. }
+        destruct (d =? 0)%N.
+        { destruct HB as (en & -> & Hfp). exists en. split; [reflexivity|exact Hfp]. }
+        rewrite HB. cbn [go_block].
+        destruct (Hinv Hi) as (Hr & Hd & Hi63). change (Z.of_N two63) with 9223372036854775808 in Hi63. apply IH; [lia|lia|lia|exact Hr|exact Hd].
+    + assert (rest = []) as ->.
+      { rewrite Hrest. unfold zskipn. destruct (Z.leb_spec idx 0).
+        - assert (length bs = 0%nat) by lia. destruct bs; [reflexivity|discriminate].
+        - destruct (Z.leb_spec (Z.of_nat (length bs)) idx); [reflexivity|lia]. }
+      cbn [skip_loop sk_out]. right. eexists. eexists. reflexivity.
+Qed.
+
+Definition sk_for : gstmt := StFor [] (Some sk_cond) [] sk_body.
+Lemma canon_Skip_body' :
+  fn_body canon_Skip =
+  [StDefine "l" (ExLen (ExVar "dAtA")); StDefine "iNdEx" (ExConst 0); StDefine "depth" (ExConst 0);
+   sk_for; StReturn [ExConst 0; ExQual "io" "ErrUnexpectedEOF"]].
+Proof. reflexivity. Qed.
+
+Lemma skip_run bs lf dp : Z.of_nat (length bs) + 8 < Z.of_N two63 ->
+  let r := run_fun canon_runtime (11 + length bs + lf) (1 + dp) "Skip" [GvBytes bs] in
+  match Skip bs with
+  | Ok m => r = GOk [GvInt TInt m; GvErr None] [GvBytes bs]
+  | Err => exists e, r = GOk [GvInt TInt 0; GvErr (Some e)] [GvBytes bs]
+  | _ => False
+  end.
+Proof.
+  intros Hlen8. cbv zeta.
+  set (LF := (11 + length bs + lf)%nat).
+  pose proof (sk_outer (go_run canon_runtime G LF dp) LF bs Hlen8 ltac:(unfold LF; lia) (length bs) bs 0 0%N LF
+                (le_n _) ltac:(unfold LF; lia) ltac:(unfold two63; lia) eq_refl ltac:(lia)) as HO.
+  unfold Skip.
+  destruct (skip_loop (S (length bs)) bs 0 0) as [m| | |]; cbn [sk_out] in HO; try contradiction;
+    unfold run_fun; cbn [Nat.add]; rewrite go_run_S; cbv zeta;
+    change (find_fun (pg_funs canon_runtime) "Skip") with (Some canon_Skip); cbv iota beta;
+    rewrite canon_Skip_body'; go; unfold sk_for; rewrite exec_for; gocbn;
+    change (for_loop G ?c ?l _ _ _ ?F _) with (for_loop G c l (Some sk_cond) [] sk_body F (sk_env bs 0 (Z.of_N 0))).
+  - destruct HO as (en & -> & Hfp). go. rewrite Hfp. reflexivity.
+  - destruct HO as [(e & en & -> & Hfp)|(i & d & ->)].
+    + go. rewrite Hfp. eexists. reflexivity.
+    + unfold sk_env. go. eexists. reflexivity.
+Qed.
+
+Lemma skip_prog_correct : skip_prog_stmt.
+Proof.
+  intros bs lf dp Hlen8. pose proof (skip_run bs lf dp Hlen8) as H. cbv zeta in *.
+  destruct (Skip bs) as [m| | |]; try contradiction.
+  - rewrite H. split; [destruct m; reflexivity|]. intros _. reflexivity.
+  - destruct H as (e & ->). split; [reflexivity|]. intros _. reflexivity.
+Qed.
